@@ -183,6 +183,8 @@ func runC05(c *eng.Ctx) {
 			// overflows the stack; the journal attributes the crash to this case)
 			a := r.Do(Op{Kind: OpCreate, Scope: 0, CtxKind: 1})
 			ProbeRegistered(r, a.NewScope)
+			b := r.Do(Op{Kind: OpCreate, Scope: 0, CtxKind: 1})
+			ProbeRegisteredReverse(r, b.NewScope)
 			ProbeRegistered(r, 0)
 			r.Finish()
 			c.R.Count("builds_ok", 1)
@@ -212,6 +214,11 @@ func runC05(c *eng.Ctx) {
 		{Regs: []Reg{mkReg("InU_0_2_Keyed", godi.Scoped, withName("k")), mkReg("InU_1_1_Keyed", godi.Scoped, withName("k"))}},
 		{Regs: []Reg{mkReg("InU_0_2_Iface", godi.Transient, withAs("IK0")), mkReg("InU_1_1_Iface", godi.Transient, withAs("IK1"))}},
 		{Regs: []Reg{mkReg("InU_0_2_Opt", godi.Scoped), mkReg("InU_1_1_Opt", godi.Scoped)}},
+		// acyclic: a member of group h depends on group g of the SAME type (same index in its group)
+		{Regs: []Reg{mkReg("InU_1_2_Group", godi.Scoped, withGroup("h")), mkReg("Leaf_K1_a", godi.Scoped, withGroup("g")), mkReg("Leaf_K1_b", godi.Scoped, withGroup("g"))}},
+		{Regs: []Reg{mkReg("Leaf_K1_c", godi.Transient, withGroup("g")), mkReg("InU_1_2_Group", godi.Scoped, withGroup("h")), mkReg("InU_0_2_Group", godi.Scoped, withName("k"))}},
+		// acyclic: keyed and unkeyed registration of one type depending on each other's identity
+		{Regs: []Reg{mkReg("InU_1_2_Keyed", godi.Scoped), mkReg("Leaf_K1_a", godi.Scoped, withName("k"))}},
 	}
 	for _, s := range directed {
 		idx, mine := cr.next()
@@ -569,7 +576,7 @@ func runC06(c *eng.Ctx) {
 		if k%5 == 3 {
 			s, _ = genCyclic(rng, true)
 		} else {
-			s, _ = GenSpec(rng, GenOpts{Want: ClsOK, Specials: k%3 == 0, Lifetimes: lifes, MultiAlias: full, OutGroup: full, Removes: k%4 == 2})
+			s, _ = GenSpec(rng, GenOpts{Want: ClsOK, Specials: k%3 == 0, Lifetimes: lifes, MultiAlias: full, OutGroup: full, Removes: k%4 == 2, Rebuild: k%7 == 3})
 		}
 		if s == nil {
 			continue
